@@ -13,6 +13,8 @@ pub struct Site {
     pub field: String,
     pub method: String,
     pub ords: Vec<String>,
+    /// line of the method name (what `Location::caller` reports for a `#[track_caller]` wrapper)
+    pub mline: usize,
 }
 
 pub struct FnInfo {
@@ -26,6 +28,9 @@ pub struct FnInfo {
     pub unparks: usize,
     /// number of parameters besides `self`
     pub arity: usize,
+    /// calls of the `#[track_caller]` bin accessors (bin / cas_bin / store_bin / next_table):
+    /// (accessor, line of the method name)
+    pub tc_calls: Vec<(String, usize)>,
 }
 
 fn last_field(e: &syn::Expr) -> String {
@@ -58,6 +63,7 @@ struct V<'a> {
     calls: Vec<String>,
     blocking: Vec<(String, usize)>,
     unparks: usize,
+    tc_calls: Vec<(String, usize)>,
 }
 
 impl<'a, 'ast> Visit<'ast> for V<'a> {
@@ -73,6 +79,7 @@ impl<'a, 'ast> Visit<'ast> for V<'a> {
                 field: last_field(&m.receiver),
                 method: name.clone(),
                 ords,
+                mline: line_of(&m.method),
             });
         } else if name == "clone" && matches!(last_field(&m.receiver).as_str(), "value") {
             self.sites.push(Site {
@@ -83,12 +90,16 @@ impl<'a, 'ast> Visit<'ast> for V<'a> {
                 field: "value".into(),
                 method: "clone".into(),
                 ords: vec!["Relaxed".into()],
+                mline: line_of(&m.method),
             });
         } else if name == "lock" && m.args.is_empty() {
             self.blocking.push(("lock".into(), line_of(m)));
         } else if name == "unpark" {
             self.unparks += 1;
         } else {
+            if matches!(name.as_str(), "bin" | "cas_bin" | "store_bin" | "next_table") {
+                self.tc_calls.push((name.clone(), line_of(&m.method)));
+            }
             self.calls.push(format!("{}/{}", name, m.args.len()));
         }
         visit::visit_expr_method_call(self, m);
@@ -139,6 +150,7 @@ pub fn scan(file: &syn::File, fname: &str) -> (Vec<Site>, Vec<FnInfo>) {
             calls: vec![],
             blocking: vec![],
             unparks: 0,
+            tc_calls: Vec::new(),
         };
         v.visit_block(&fr.f.block);
         fns.push(FnInfo {
@@ -154,6 +166,7 @@ pub fn scan(file: &syn::File, fname: &str) -> (Vec<Site>, Vec<FnInfo>) {
             },
             blocking: v.blocking.clone(),
             unparks: v.unparks,
+            tc_calls: v.tc_calls.clone(),
             arity: fr.f.sig.inputs.iter().filter(|a| matches!(a, syn::FnArg::Typed(_))).count(),
         });
         sites.extend(v.sites);
@@ -172,6 +185,7 @@ pub fn scan(file: &syn::File, fname: &str) -> (Vec<Site>, Vec<FnInfo>) {
                 calls: vec![],
                 blocking: vec![],
                 unparks: 0,
+                tc_calls: Vec::new(),
             };
             v.visit_block(&f.block);
             fns.push(FnInfo {
@@ -182,6 +196,7 @@ pub fn scan(file: &syn::File, fname: &str) -> (Vec<Site>, Vec<FnInfo>) {
                 calls: v.calls.clone(),
                 blocking: v.blocking.clone(),
                 unparks: v.unparks,
+                tc_calls: v.tc_calls.clone(),
                 arity: f.sig.inputs.len(),
             });
             sites.extend(v.sites);
